@@ -58,6 +58,7 @@ where
     F: Float,
     StandardUniform: Distribution<F>,
 {
+    n: F,
     s: F,
     t: F,
     q: F,
@@ -124,7 +125,7 @@ where
             F::one() + n.ln()
         };
         debug_assert!(t > F::zero());
-        Ok(Zipf { s, t, q })
+        Ok(Zipf { n, s, t, q })
     }
 
     /// Inverse cumulative density function
@@ -153,6 +154,10 @@ where
         loop {
             let inv_b = self.inv_cdf(rng.sample(StandardUniform));
             let x = (inv_b + one).floor();
+            // Rounding in `inv_cdf` (or a non-integral `n`) can propose a rank above `n`
+            if x > self.n {
+                continue;
+            }
             let mut ratio = x.powf(-self.s);
             if x > one {
                 ratio = ratio * inv_b.powf(self.s)
